@@ -58,6 +58,8 @@ type c23Case struct {
 	Pending c23Pending `json:"pending"`
 	Present bool       `json:"present"`
 	Rounds  int        `json:"rounds"`
+	Racers  int        `json:"racers"`
+	Budget  int        `json:"budget_ms"`
 }
 
 type c23Res struct {
@@ -69,6 +71,8 @@ type c23Res struct {
 	B64       []string `json:"b64"`
 	Pkce      []int    `json:"pkce"`
 	MaxSucc   int      `json:"maxsucc"`
+	Rounds    int      `json:"rounds"`
+	NoWinner  int      `json:"nowinner"` // stress rounds in which nobody redeemed a present entry
 	NewTokens []bool   `json:"newtokens"` // a 200 response carried an access token (and refresh token where applicable)
 	Err       string   `json:"err"`
 }
@@ -82,6 +86,7 @@ type c23Event struct {
 
 var (
 	c23Instrumented bool
+	c23DeleteGaps   bool
 	c23Armed        bool
 	c23Current      int
 	c23Evt          chan c23Event
@@ -175,23 +180,34 @@ func c23Run(c c23Case) c23Res {
 	}
 
 	if strings.HasPrefix(c.Kind, "stress") {
-		// no forced schedule: n goroutines released together, repeated; reports the largest number of successes
-		for round := 0; round < c.Rounds; round++ {
+		// no forced schedule: c.Racers goroutines released together, repeated until c.Rounds or the time
+		// budget; reports the largest number of successes for one entry
+		racers := c.Racers
+		if racers < 2 {
+			racers = 2
+		}
+
+		deadline := time.Now().Add(time.Duration(c.Budget) * time.Millisecond)
+
+		for round := 0; round < c.Rounds && time.Now().Before(deadline); round++ {
 			key, _ = generateCode()
 			store()
 
 			var (
-				wg    sync.WaitGroup
-				mu    sync.Mutex
-				succ  int
-				start = make(chan struct{})
+				ready, done sync.WaitGroup
+				mu          sync.Mutex
+				succ        int
+				start       = make(chan struct{})
 			)
 
-			for t := 0; t < n; t++ {
-				wg.Add(1)
+			for t := 0; t < racers; t++ {
+				ready.Add(1)
+				done.Add(1)
 
 				go func() {
-					defer wg.Done()
+					defer done.Done()
+
+					ready.Done()
 					<-start
 
 					if st, _ := c23Do(c.Kind, key, c23Req{}); st == 200 {
@@ -202,11 +218,22 @@ func c23Run(c c23Case) c23Res {
 				}()
 			}
 
+			ready.Wait()
 			close(start)
-			wg.Wait()
+			done.Wait()
+
+			res.Rounds++
 
 			if succ > res.MaxSucc {
 				res.MaxSucc = succ
+			}
+
+			if succ == 0 {
+				res.NoWinner++
+			}
+
+			if succ > 1 {
+				break
 			}
 		}
 
@@ -249,7 +276,11 @@ func c23Run(c c23Case) c23Res {
 	for _, s := range c.Sched {
 		switch {
 		case s == "E":
+			c23Armed = false // the environment's own delete is not a request thread
+
 			caches.Delete(cache, key)
+
+			c23Armed = true
 		case s[0] == 'R':
 			t, _ := strconv.Atoi(s[1:])
 			if t < 0 || t >= n || started[t] {
@@ -275,9 +306,15 @@ func c23Run(c c23Case) c23Res {
 		}
 	}
 
-	for t := 0; t < n; t++ {
-		if parked[t] {
-			resume(t)
+	for again := true; again; {
+		again = false
+
+		for t := 0; t < n; t++ {
+			if parked[t] {
+				resume(t)
+
+				again = true
+			}
 		}
 	}
 
@@ -316,8 +353,9 @@ func TestVerifC23(t *testing.T) {
 
 	out := struct {
 		Instrumented bool     `json:"instrumented"`
+		DeleteGaps   bool     `json:"delete_gaps"`
 		Results      []c23Res `json:"results"`
-	}{Instrumented: c23Instrumented}
+	}{Instrumented: c23Instrumented, DeleteGaps: c23DeleteGaps}
 
 	for _, c := range cases {
 		if c.Kind == "pkce" {
